@@ -25,7 +25,9 @@ LEVEL_TEXT = (
     "(gen_grid_init_eq) and that the return statement of the generated get_localgrid hands LocalGrid.__init__ arguments it "
     "accepts in every reachable state (gen_localgrid_of_query, _inf); the keyword arguments of cKDTree / query_ball_point "
     "(source literals, SciPy's signature defaults for the others) are regenerated as a constant and proved to select the "
-    "exact Euclidean non-periodic search (gen_tree_args_exact)."
+    "exact Euclidean non-periodic search (gen_tree_args_exact). Round 4: the table of every Grid subclass of the package with the "
+    "class whose get_localgrid / __getitem__ / points / weights it executes is regenerated (gridDispatch) and proved to be the "
+    "dispatch the model assumes (gen_dispatch_pinned): a new override of get_localgrid in any subclass breaks the obligation."
 )
 TECHNIQUE = "Lean 4 proof (state-machine invariant over all op histories) + differential op histories + brute-force oracle"
 GEN = ["localgrid", "localgrid_ctor"]
@@ -70,6 +72,8 @@ THEOREMS = [
     "GridVerif.C10.gen_localgrid_of_query",
     "GridVerif.C10.gen_localgrid_of_query_inf",
     "GridVerif.C10.gen_tree_args_exact",
+    # round 4: which class's get_localgrid / __getitem__ / points / weights every grid class executes
+    "GridVerif.C10.gen_dispatch_pinned",
 ]
 RULE = (
     "one evaluation = one operation (get_localgrid / points= / weights= / __getitem__) of a random history run on the "
@@ -84,7 +88,14 @@ RULE = (
     "grid it was handed (in place / setters) and asks again, the handed-out grid lives through its own history; orders = every "
     "sequence of <= 2 (thorough 3) operations of {query A, query B, inf query, points=, weights=, selection} on every class; "
     "domain = both sides of the 1e-7 slack of OneDGrid.__init__ through __getitem__; ctor = the generated constructors on "
-    "every rank/length combination and the keyword arguments the neighbour search receives at run time"
+    "every rank/length combination and the keyword arguments the neighbour search receives at run time. Round 4 "
+    "(harness/props/c10_r4.py): one-dimensional point arrays ascending / descending / permuted / with repeated values in every "
+    "class that carries them (OneDGrid, the real MultiExp / Becke / Handy radial grids, rule objects, Tensor1DGrids, radial grids "
+    "of AtomGrid / MolGrid), AngularGrid, unequal shapes and (n, d) in {1,2,3}^2, points / weights / axes / radial grids as "
+    "bool / int / float32 / negative-stride / strided / Fortran / read-only arrays, reversed and permuted selections queried "
+    "themselves, every keyword spelling of get_localgrid and of the constructors, one centre / value / index array shared by "
+    "several requests (guard bytes around a view), every rejected call in every position of a short history; corr and oracle run "
+    "as independent parts (run_parts): an exception in one part does not hide the findings of the others"
 )
 TRUSTED_BASE = [
     "Lean 4.33 kernel; axioms propext, Classical.choice, Quot.sound only (audited per theorem)",
@@ -105,16 +116,16 @@ ERR = {ValueError: "value-error", TypeError: "type-error", IndexError: "index-er
 PATH = {
     "grid": "basegrid.Grid", "grid1": "basegrid.Grid", "oned": "basegrid.OneDGrid", "atom": "atomgrid.AtomGrid",
     "mol": "molgrid.MolGrid", "uniform": "cubic.UniformGrid", "tensor": "cubic.Tensor1DGrids", "loc": "basegrid.LocalGrid",
-    "periodic": "periodicgrid.PeriodicGrid",
+    "periodic": "periodicgrid.PeriodicGrid", "angular": "angular.AngularGrid",
 }
 MODEL_CLS = {"grid": "grid", "grid1": "grid", "oned": "oned", "atom": "atom", "mol": "mol", "uniform": "rect",
-             "tensor": "rect", "loc": "loc"}
+             "tensor": "rect", "loc": "loc", "angular": "rect"}
 KINDS = ["grid", "grid1", "oned", "atom", "mol", "uniform", "tensor", "loc"]
 
 
 def _mods():
     m = {}
-    for n in ("basegrid", "atomgrid", "molgrid", "cubic", "becke", "periodicgrid"):
+    for n in ("basegrid", "atomgrid", "molgrid", "cubic", "becke", "periodicgrid", "angular", "onedgrid", "rtransform"):
         m[n] = importlib.import_module("grid." + n)
     return m
 
@@ -191,6 +202,20 @@ def _size(rng):
     return rng.choice([0, 1, 1, 2, 2, 3, 3, 4, 5, 7, 12])
 
 
+def _reorder(rng, p):
+    """One-dimensional point arrays in every order the classes accept: ascending, descending, permuted (radial grids
+    of `MultiExpRTransform` are descending; selections and user-built grids come in any order)."""
+    p = np.sort(p)
+    k = rng.random()
+    if k < 0.4 or len(p) < 2:
+        return p
+    if k < 0.7:
+        return p[::-1].copy()
+    idx = list(range(len(p)))
+    rng.shuffle(idx)
+    return p[idx].copy()
+
+
 def build(kind, rng, M):
     """-> implementation object of the requested kind (small); `_gv_ctor` = python text rebuilding it."""
     g = _build(kind, rng, M)
@@ -212,7 +237,7 @@ def _build(kind, rng, M):
         return bg.Grid(_dress(rng, _coords(rng, (n,), st)), _dress(rng, _weights(rng, n)))
     if kind == "oned":
         n = _size(rng)
-        p = np.sort(_dress(rng, _coords(rng, (n,), st)))
+        p = _reorder(rng, _dress(rng, _coords(rng, (n,), st)))
         dom = None
         if rng.random() < 0.6:
             lo = (p.min() if n else 0.0) - rng.choice([0.0, 0.5, 5e-8])
@@ -224,7 +249,7 @@ def _build(kind, rng, M):
     if kind in ("atom", "mol"):
         def atom():
             nr = rng.choice([1, 1, 2])
-            r = np.sort(np.array([rng.uniform(0.2, 2.0) for _ in range(nr)]))
+            r = _reorder(rng, np.array([rng.uniform(0.2, 2.0) for _ in range(nr)]))
             rg = bg.OneDGrid(r, np.ones(nr), (0, np.inf))
             degs = [rng.choice([3, 5])] if rng.random() < 0.6 else [rng.choice([3, 5]) for _ in range(nr)]
             c = None if rng.random() < 0.2 else _coords(rng, (3,), st)
@@ -254,7 +279,7 @@ def _build(kind, rng, M):
         gs = []
         for _ in range(d):
             n = rng.choice([2, 2, 3])
-            gs.append(bg.OneDGrid(np.sort(_coords(rng, (n,), False)), _weights(rng, n)))
+            gs.append(bg.OneDGrid(_reorder(rng, _coords(rng, (n,), False)), _weights(rng, n)))
         g = M["cubic"].Tensor1DGrids(*gs)
         g._gv_oned = gs
         return g
@@ -646,8 +671,40 @@ def _observe(run, g):
         return "E " + _errtag(e)
 
 
+def run_parts(ctx, stage, parts):
+    """Run the independent parts of `corr` / `oracle` one after the other; an exception inside one part does not
+    hide what the others find.  An exception that comes out of the library itself (innermost frame inside the `grid`
+    package: the harness observes every library call it expects to fail, so this one was not expected) is recorded
+    as a failure of that part with the traceback; the first other exception (harness, driver, translator) is kept
+    and re-raised after all parts have run (the runner reports it as a broken tie)."""
+    import traceback
+    first = None
+    for name, fn in parts:
+        try:
+            fn()
+        except Exception as e:  # noqa: BLE001
+            tb = traceback.extract_tb(e.__traceback__)
+            inner = tb[-1].filename.replace("\\", "/") if tb else ""
+            if "/grid/" in inner and "/harness/" not in inner:
+                ctx.fail(stage, f"{name}:raises",
+                         f"part `{name}` of the {stage}: the library raised {type(e).__name__}: {str(e)[:160]} "
+                         f"({inner.split('/')[-1]}:{tb[-1].lineno} in {tb[-1].name}) where the harness expected an answer",
+                         witness=traceback.format_exc()[-2500:])
+            elif first is None:
+                first = e
+            else:
+                ctx.info(f"part `{name}` of the {stage} also raised {type(e).__name__}: {str(e)[:160]}")
+    if first is not None:
+        raise first
+
+
 def corr(ctx: Ctx):
     M = _mods()
+    from . import c10_ext, c10_r4
+    run_parts(ctx, "corr", [("histories", lambda: _corr_histories(ctx, M))] + c10_ext.corr_parts(ctx, M) + c10_r4.corr_parts(ctx, M))
+
+
+def _corr_histories(ctx, M):
     rng = ctx.rng
     nh = ctx.n(9000, 45000)
     hs, lines = [], []
@@ -679,8 +736,6 @@ def corr(ctx: Ctx):
         hs.append(h)
         lines.append(f"{head} {len(h.tokens)} " + " ".join(h.tokens))
     _compare(ctx, hs, lines, driver_batch(lines))
-    from . import c10_ext
-    c10_ext.corr(ctx, M)
 
 
 def _compare(ctx, hs, lines, answers):
@@ -725,6 +780,7 @@ from grid.atomgrid import AtomGrid
 from grid.molgrid import MolGrid
 from grid.becke import BeckeWeights
 from grid.cubic import UniformGrid, Tensor1DGrids
+from grid.angular import AngularGrid
 """
 
 
@@ -750,6 +806,8 @@ def _ctor_text(kind, g):
         return "Tensor1DGrids(" + ", ".join(f"OneDGrid({_descr(np.asarray(o.points))}, {_descr(np.asarray(o.weights))})" for o in g._gv_oned) + ")"
     if kind == "loc":
         return f"LocalGrid({_descr(np.asarray(g.points))}, {_descr(np.asarray(g.weights))}, {_descr(np.asarray(g.center))}, {_descr(np.asarray(g.indices))})"
+    if kind == "angular":
+        return f"AngularGrid(degree={int(g.degree)})"
     if kind == "periodic":
         return f"PeriodicGrid({_descr(np.asarray(g.points))}, {_descr(np.asarray(g.weights))}, {_descr(np.asarray(g.realvecs))})"
     raise KeyError(kind)
@@ -878,6 +936,12 @@ def _check_getitem(ctx, kind, g, ik, idx, pre, path):
 def oracle(ctx: Ctx, budget: str):
     M = _mods()
     ctx._M = M
+    from . import c10_ext, c10_r4
+    run_parts(ctx, "oracle", [("histories", lambda: _oracle_histories(ctx, M, budget))] + c10_ext.oracle_parts(ctx, M, budget)
+              + c10_r4.oracle_parts(ctx, M, budget))
+
+
+def _oracle_histories(ctx, M, budget):
     rng = ctx.rng
     nh = (1500 if budget == "small" else 12000) * (4 if ctx.thorough else 1)
     kinds = KINDS + ["periodic"]
@@ -953,8 +1017,6 @@ def oracle(ctx: Ctx, budget: str):
             else:
                 ik, idx, _ = _index(rng, n)
                 _check_getitem(ctx, kind, g, ik, idx, pre, path)
-    from . import c10_ext
-    c10_ext.oracle(ctx, M, budget)
 
 
 def oracle_at(ctx: Ctx, failure):
